@@ -1,6 +1,8 @@
 // Package c19: offset and metadata queries against exhaustively enumerated small
 // cluster states; every answer is compared with the fake cluster's state, and a
 // failure concerning one partition must be reported on that partition only.
+// Multi-topic queries are issued over every request shape of a small alphabet
+// (1-3 topics x differing partition lists, see shapeCases).
 package c19
 
 import (
@@ -15,6 +17,9 @@ import (
 	kafka "github.com/segmentio/kafka-go"
 	"github.com/segmentio/kafka-go/protocol"
 	"github.com/segmentio/kafka-go/protocol/listoffsets"
+	"github.com/segmentio/kafka-go/protocol/offsetcommit"
+	"github.com/segmentio/kafka-go/protocol/offsetfetch"
+	"github.com/segmentio/kafka-go/zzverif/vhook"
 
 	"verif/engine/bub"
 	"verif/engine/fk"
@@ -549,5 +554,450 @@ func TestCheck(t *testing.T) {
 			})
 		}
 	}
+	shapeCases(t, s, thorough)
 	s.Finish()
+}
+
+// D. request shapes. Every multi-topic, multi-partition query of the Client (OffsetFetch, ListOffsets,
+// OffsetCommit, Metadata) and Conn.ReadPartitions over every request shape of a small alphabet: 1..3 topics,
+// each with a partition list drawn from shapeLists (different lists, lengths and orders per topic, including a
+// partition that does not exist), under every order in which the library may walk the request's topic map.
+// The answer must cover exactly the topics and partitions asked for, each with the value the cluster holds
+// for it, and the requests that reached the brokers must ask for what the caller asked for.
+var shapeLists = [][]int{{0}, {1}, {0, 1, 2}, {2, 0}, {5}}
+var shapeTopics = []string{"a", "b", "c"}
+
+func shapeStart(ti, p int) int64 { return int64(10*ti + p) }
+func shapeEnd(ti, p int) int64   { return shapeStart(ti, p) + int64(1+p+ti) }
+
+// shapeCommitted: what group g has committed for a partition before the query (-1: nothing)
+func shapeCommitted(ti, p int) int64 {
+	if p > 2 || (ti+p)%3 == 2 {
+		return -1
+	}
+	return int64(100*ti + 10*p + 1)
+}
+
+func mkShapeCluster() *fk.Cluster {
+	c := fk.New(3)
+	c.Auto = true
+	for ti, name := range shapeTopics {
+		ti := ti
+		c.AddTopic(name, 3, func(p int) int { return (p+ti)%3 + 1 })
+		for p := 0; p < 3; p++ {
+			fill(c.Part(name, p), pstate{"", shapeStart(ti, p), shapeEnd(ti, p), int64(1000*(ti+1) + 100*p)})
+			if o := shapeCommitted(ti, p); o >= 0 {
+				c.SetCommitted("g", name, p, o)
+			}
+		}
+	}
+	c.SetCommitted("other", "a", 1, 99)
+	return c
+}
+
+type shape struct {
+	topics []string // in the order the lists were dealt
+	lists  map[string][]int
+}
+
+func (sh shape) String() string {
+	s := ""
+	for _, t := range sh.topics {
+		s += fmt.Sprintf("%s:%v ", t, sh.lists[t])
+	}
+	return s
+}
+
+// shapes with exactly k topics: every assignment of a list of the alphabet to each of the first k topics
+func shapesOf(k int) []shape {
+	var out []shape
+	idx := make([]int, k)
+	for {
+		sh := shape{lists: map[string][]int{}}
+		for i := 0; i < k; i++ {
+			sh.topics = append(sh.topics, shapeTopics[i])
+			sh.lists[shapeTopics[i]] = shapeLists[idx[i]]
+		}
+		out = append(out, sh)
+		i := k - 1
+		for ; i >= 0; i-- {
+			idx[i]++
+			if idx[i] < len(shapeLists) {
+				break
+			}
+			idx[i] = 0
+		}
+		if i < 0 {
+			return out
+		}
+	}
+}
+
+func sortedInts(l []int) string {
+	c := append([]int(nil), l...)
+	sort.Ints(c)
+	return fmt.Sprint(c)
+}
+
+func topicIndex(name string) int {
+	for i, n := range shapeTopics {
+		if n == name {
+			return i
+		}
+	}
+	return -1
+}
+
+func shapeCases(t *testing.T, s *seqx.Suite, thorough bool) {
+	ctx := context.Background()
+	s.Begin("request-shapes")
+	maxTopics, orders := 2, 2
+	if thorough {
+		maxTopics, orders = 3, 6
+	}
+	type shapeOp struct {
+		name string
+		run  func(c *fk.Cluster, cl *kafka.Client, sh shape) *seqx.Viol
+	}
+	ops := []shapeOp{
+		{"offset-fetch", func(c *fk.Cluster, cl *kafka.Client, sh shape) *seqx.Viol {
+			req := &kafka.OffsetFetchRequest{GroupID: "g", Topics: map[string][]int{}}
+			for tn, l := range sh.lists {
+				req.Topics[tn] = append([]int(nil), l...)
+			}
+			r, err := cl.OffsetFetch(ctx, req)
+			if err != nil || r.Error != nil {
+				return &seqx.Viol{Sig: "offsetfetch-failed", Msg: fmt.Sprintf("OffsetFetch %v failed: %v %+v", sh, err, r)}
+			}
+			sent := map[string][]int{}
+			nreq := 0
+			for _, e := range c.Journal {
+				if w, ok := e.Msg.(*offsetfetch.Request); ok {
+					nreq++
+					for _, wt := range w.Topics {
+						for _, p := range wt.PartitionIndexes {
+							sent[wt.Name] = append(sent[wt.Name], int(p))
+						}
+					}
+				}
+			}
+			wire := fmt.Sprintf(" (the request that reached the coordinator asked for %v)", sent)
+			if len(r.Topics) != len(sh.lists) {
+				return &seqx.Viol{Sig: "offsetfetch-shape", Msg: fmt.Sprintf("OffsetFetch %v reported topics %v", sh, r.Topics) + wire}
+			}
+			for _, tn := range sh.topics {
+				l := sh.lists[tn]
+				var got []int
+				for _, p := range r.Topics[tn] {
+					got = append(got, p.Partition)
+					if want := shapeCommitted(topicIndex(tn), p.Partition); p.CommittedOffset != want || p.Error != nil {
+						return &seqx.Viol{Sig: "offsetfetch-wrong", Msg: fmt.Sprintf("OffsetFetch %v: %s/%d = %d (%v), the coordinator holds %d", sh, tn, p.Partition, p.CommittedOffset, p.Error, want) + wire}
+					}
+				}
+				if sortedInts(got) != sortedInts(l) {
+					return &seqx.Viol{Sig: "offsetfetch-shape", Msg: fmt.Sprintf("OffsetFetch %v: topic %s reports partitions %v, asked for %v", sh, tn, got, l) + wire}
+				}
+			}
+			for _, tn := range sh.topics {
+				if nreq != 1 || len(sent) != len(sh.lists) || sortedInts(sent[tn]) != sortedInts(sh.lists[tn]) {
+					return &seqx.Viol{Sig: "offsetfetch-request-altered", Msg: fmt.Sprintf("OffsetFetch was asked for %v; the request(s) that reached the coordinator (%d) asked for %v", sh, nreq, sent)}
+				}
+			}
+			return nil
+		}},
+		{"list-offsets", func(c *fk.Cluster, cl *kafka.Client, sh shape) *seqx.Viol {
+			req := &kafka.ListOffsetsRequest{Topics: map[string][]kafka.OffsetRequest{}}
+			type want struct {
+				tn string
+				p  int
+				ts int64
+			}
+			wantSent := map[want]int{}
+			for tn, l := range sh.lists {
+				for _, p := range l {
+					at := int64(1000*(topicIndex(tn)+1) + 100*p + 10) // the second record, if the partition has one
+					req.Topics[tn] = append(req.Topics[tn], kafka.FirstOffsetOf(p), kafka.LastOffsetOf(p), kafka.TimeOffsetOf(p, time.UnixMilli(at)))
+					if p <= 2 {
+						wantSent[want{tn, p, kafka.FirstOffset}]++
+						wantSent[want{tn, p, kafka.LastOffset}]++
+						wantSent[want{tn, p, at}]++
+					}
+				}
+			}
+			r, err := cl.ListOffsets(ctx, req)
+			if err != nil {
+				onlyUnknown := true
+				for _, l := range sh.lists {
+					for _, p := range l {
+						onlyUnknown = onlyUnknown && p > 2
+					}
+				}
+				if onlyUnknown {
+					return nil // nothing but a partition that does not exist was asked for
+				}
+				return &seqx.Viol{Sig: "listoffsets-not-isolated", Msg: fmt.Sprintf("ListOffsets %v failed as a whole: %s", sh, hx.ErrString(err))}
+			}
+			sent := map[want]int{}
+			for _, e := range c.Journal {
+				if w, ok := e.Msg.(*listoffsets.Request); ok {
+					for _, wt := range w.Topics {
+						for _, wp := range wt.Partitions {
+							if wp.Partition <= 2 {
+								// (whether and where a partition that does not exist is asked about is the library's business)
+								sent[want{wt.Topic, int(wp.Partition), wp.Timestamp}]++
+							}
+							if part := c.Part(wt.Topic, int(wp.Partition)); part != nil && part.Leader != e.Broker {
+								return &seqx.Viol{Sig: "listoffsets-wrong-broker", Msg: fmt.Sprintf("ListOffsets %v: the query for %s/%d went to broker %d, its leader is %d", sh, wt.Topic, wp.Partition, e.Broker, part.Leader)}
+							}
+						}
+					}
+				}
+			}
+			if fmt.Sprint(sent) != fmt.Sprint(wantSent) {
+				return &seqx.Viol{Sig: "listoffsets-request-altered", Msg: fmt.Sprintf("ListOffsets was asked for %v (first, last and one timestamp each); the brokers were asked for %v, expected %v", sh, sent, wantSent)}
+			}
+			if len(r.Topics) != len(sh.lists) {
+				return &seqx.Viol{Sig: "listoffsets-shape", Msg: fmt.Sprintf("ListOffsets %v reported topics %v", sh, r.Topics)}
+			}
+			for _, tn := range sh.topics {
+				l := sh.lists[tn]
+				ti := topicIndex(tn)
+				var got []int
+				for _, po := range r.Topics[tn] {
+					got = append(got, po.Partition)
+					if po.Partition > 2 {
+						if po.Error == nil {
+							return &seqx.Viol{Sig: "listoffsets-error-lost", Msg: fmt.Sprintf("ListOffsets %v: %s/%d does not exist but is reported without error: %+v", sh, tn, po.Partition, po)}
+						}
+						continue
+					}
+					part := c.Part(tn, po.Partition)
+					wo, _ := part.OffsetFor(int64(1000*(ti+1) + 100*po.Partition + 10))
+					var offs []int64
+					for o := range po.Offsets {
+						offs = append(offs, o)
+					}
+					if po.Error != nil || po.FirstOffset != part.Start || po.LastOffset != part.End || len(offs) != 1 || offs[0] != wo {
+						return &seqx.Viol{Sig: "listoffsets-wrong-value", Msg: fmt.Sprintf("ListOffsets %v: %s/%d reports first=%d last=%d offsets=%v error=%v; the cluster holds first=%d last=%d at-timestamp=%d", sh, tn, po.Partition, po.FirstOffset, po.LastOffset, po.Offsets, po.Error, part.Start, part.End, wo)}
+					}
+				}
+				if sortedInts(got) != sortedInts(l) {
+					return &seqx.Viol{Sig: "listoffsets-shape", Msg: fmt.Sprintf("ListOffsets %v: topic %s reports partitions %v, asked for %v", sh, tn, got, l)}
+				}
+			}
+			return nil
+		}},
+		{"offset-commit", func(c *fk.Cluster, cl *kafka.Client, sh shape) *seqx.Viol {
+			req := &kafka.OffsetCommitRequest{GroupID: "g", GenerationID: -1, Topics: map[string][]kafka.OffsetCommit{}}
+			newOff := func(ti, p int) int64 { return int64(1000 + 100*ti + 10*p) }
+			for tn, l := range sh.lists {
+				for _, p := range l {
+					req.Topics[tn] = append(req.Topics[tn], kafka.OffsetCommit{Partition: p, Offset: newOff(topicIndex(tn), p)})
+				}
+			}
+			r, err := cl.OffsetCommit(ctx, req)
+			if err != nil {
+				return &seqx.Viol{Sig: "offsetcommit-failed", Msg: fmt.Sprintf("OffsetCommit %v failed: %v", sh, err)}
+			}
+			sent := map[string]string{}
+			nreq := 0
+			for _, e := range c.Journal {
+				if w, ok := e.Msg.(*offsetcommit.Request); ok {
+					nreq++
+					for _, wt := range w.Topics {
+						var l []string
+						for _, wp := range wt.Partitions {
+							l = append(l, fmt.Sprintf("%d=%d", wp.PartitionIndex, wp.CommittedOffset))
+						}
+						sort.Strings(l)
+						sent[wt.Name] += fmt.Sprint(l)
+					}
+				}
+			}
+			wantSent := map[string]string{}
+			for tn, l := range sh.lists {
+				var w []string
+				for _, p := range l {
+					w = append(w, fmt.Sprintf("%d=%d", p, newOff(topicIndex(tn), p)))
+				}
+				sort.Strings(w)
+				wantSent[tn] = fmt.Sprint(w)
+			}
+			if nreq != 1 || fmt.Sprint(sent) != fmt.Sprint(wantSent) {
+				return &seqx.Viol{Sig: "offsetcommit-request-altered", Msg: fmt.Sprintf("OffsetCommit was asked to commit %v; the request(s) that reached the coordinator (%d) carried %v", wantSent, nreq, sent)}
+			}
+			if len(r.Topics) != len(sh.lists) {
+				return &seqx.Viol{Sig: "offsetcommit-shape", Msg: fmt.Sprintf("OffsetCommit %v reported topics %v", sh, r.Topics)}
+			}
+			for _, tn := range sh.topics {
+				l := sh.lists[tn]
+				var got []int
+				for _, p := range r.Topics[tn] {
+					got = append(got, p.Partition)
+					if (p.Partition > 2) != (p.Error != nil) {
+						return &seqx.Viol{Sig: "offsetcommit-error-placement", Msg: fmt.Sprintf("OffsetCommit %v: %s/%d error=%v", sh, tn, p.Partition, p.Error)}
+					}
+				}
+				if sortedInts(got) != sortedInts(l) {
+					return &seqx.Viol{Sig: "offsetcommit-shape", Msg: fmt.Sprintf("OffsetCommit %v: topic %s reports partitions %v, asked for %v", sh, tn, got, l)}
+				}
+			}
+			// the coordinator holds the new offsets for exactly the partitions named, everything else is untouched
+			c.Lock()
+			defer c.Unlock()
+			g := c.Groups["g"]
+			for ti, tn := range shapeTopics {
+				for p := 0; p < 3; p++ {
+					want := shapeCommitted(ti, p)
+					for _, q := range sh.lists[tn] {
+						if q == p {
+							want = newOff(ti, p)
+						}
+					}
+					got, ok := g.Offsets[fk.TP{Topic: tn, Part: p}]
+					if !ok {
+						got = -1
+					}
+					if got != want {
+						return &seqx.Viol{Sig: "offsetcommit-not-recorded", Msg: fmt.Sprintf("after OffsetCommit %v the coordinator holds %s/%d=%d, expected %d", sh, tn, p, got, want)}
+					}
+				}
+			}
+			if oth := c.Groups["other"].Offsets[fk.TP{Topic: "a", Part: 1}]; oth != 99 {
+				return &seqx.Viol{Sig: "offsetcommit-not-recorded", Msg: fmt.Sprintf("OffsetCommit for group g changed a/1 of another group to %d", oth)}
+			}
+			return nil
+		}},
+	}
+	for k := 1; k <= maxTopics; k++ {
+		for _, sh := range shapesOf(k) {
+			for _, op := range ops {
+				for ord := 0; ord < orders; ord++ {
+					if ord > 0 && k == 1 || ord > 1 && k == 2 {
+						continue // one topic has one order, two have two
+					}
+					sh, op, ord := sh, op, ord
+					id := fmt.Sprintf("%s %vmap-order#%d", op.name, sh, ord)
+					s.Case(id, id, func() (string, *seqx.Viol) {
+						var v *seqx.Viol
+						br := bub.Run(t, 0, func() {
+							c := mkShapeCluster()
+							cl, tr := clientops.NewClient(c)
+							defer tr.CloseIdleConnections()
+							// the order in which the library walks a map of n topics: the ord-th permutation
+							// when the map has as many entries as the request has topics (any other map keeps
+							// its canonical order)
+							perm := func(n int) []int {
+								ps := seqx.Perms(n)
+								if n != len(sh.lists) || n > 5 {
+									return ps[0]
+								}
+								return ps[ord%len(ps)]
+							}
+							vhook.Perm.Store(&perm)
+							defer vhook.Perm.Store(nil)
+							v = op.run(c, cl, sh)
+						})
+						if br.Panic != "" {
+							return "panic", &seqx.Viol{Sig: "panic", Msg: br.Panic}
+						}
+						if v != nil {
+							v.Msg += fmt.Sprintf(" [topic map walked in order #%d]", ord)
+						}
+						return fmt.Sprintf("%s/%d topics", op.name, len(sh.lists)), v
+					})
+				}
+			}
+		}
+	}
+	// topic-name lists: Metadata and ReadPartitions
+	nameLists := [][]string{{"a"}, {"b"}, {"a", "b", "c"}, {"c", "a"}, {"zz"}, {"b", "zz"}}
+	for _, names := range nameLists {
+		names := names
+		id := fmt.Sprintf("metadata+read-partitions %v", names)
+		s.Case(id, id, func() (string, *seqx.Viol) {
+			var v *seqx.Viol
+			br := bub.Run(t, 0, func() {
+				c := mkShapeCluster()
+				cl, tr := clientops.NewClient(c)
+				defer tr.CloseIdleConnections()
+				md, err := cl.Metadata(ctx, &kafka.MetadataRequest{Topics: names})
+				if err != nil {
+					v = &seqx.Viol{Sig: "metadata-failed", Msg: fmt.Sprintf("Metadata %v: %v", names, err)}
+					return
+				}
+				var got []string
+				for _, tp := range md.Topics {
+					got = append(got, tp.Name)
+					ct := c.Topics[tp.Name]
+					if ct == nil {
+						if tp.Error == nil {
+							v = &seqx.Viol{Sig: "metadata-wrong", Msg: fmt.Sprintf("Metadata %v: topic %s does not exist but is reported without error", names, tp.Name)}
+							return
+						}
+						continue
+					}
+					if tp.Error != nil || len(tp.Partitions) != len(ct.Parts) {
+						v = &seqx.Viol{Sig: "metadata-wrong", Msg: fmt.Sprintf("Metadata %v: topic %s: %d partitions err=%v", names, tp.Name, len(tp.Partitions), tp.Error)}
+						return
+					}
+					for _, p := range tp.Partitions {
+						if cp := c.Part(tp.Name, p.ID); cp == nil || p.Leader.ID != cp.Leader || p.Topic != tp.Name {
+							v = &seqx.Viol{Sig: "metadata-wrong", Msg: fmt.Sprintf("Metadata %v: %s/%d leader %d", names, tp.Name, p.ID, p.Leader.ID)}
+							return
+						}
+					}
+				}
+				sort.Strings(got)
+				want := append([]string(nil), names...)
+				sort.Strings(want)
+				if fmt.Sprint(got) != fmt.Sprint(want) {
+					v = &seqx.Viol{Sig: "metadata-shape", Msg: fmt.Sprintf("Metadata %v reported topics %v", names, got)}
+					return
+				}
+				conn, _ := hx.Conn(c, "a", 0)
+				defer conn.Close()
+				ps, err := conn.ReadPartitions(names...)
+				known := 0
+				for _, n := range names {
+					if c.Topics[n] != nil {
+						known++
+					}
+				}
+				if known < len(names) {
+					// an unknown topic among the names: an error, or the partitions of the known ones only
+					if err == nil && len(ps) != 3*known {
+						v = &seqx.Viol{Sig: "readpartitions-wrong", Msg: fmt.Sprintf("ReadPartitions %v returned %d partitions without error", names, len(ps))}
+					}
+					return
+				}
+				if err != nil || len(ps) != 3*len(names) {
+					v = &seqx.Viol{Sig: "readpartitions-wrong", Msg: fmt.Sprintf("ReadPartitions %v: %d partitions, %v", names, len(ps), err)}
+					return
+				}
+				seen := map[string]bool{}
+				for _, p := range ps {
+					cp := c.Part(p.Topic, p.ID)
+					k := fmt.Sprintf("%s/%d", p.Topic, p.ID)
+					if cp == nil || seen[k] || p.Leader.ID != cp.Leader || c.Topics[p.Topic] == nil || fmt.Sprint(want) == "" {
+						v = &seqx.Viol{Sig: "readpartitions-wrong", Msg: fmt.Sprintf("ReadPartitions %v: %s leader %+v", names, k, p.Leader)}
+						return
+					}
+					seen[k] = true
+					found := false
+					for _, n := range names {
+						found = found || n == p.Topic
+					}
+					if !found {
+						v = &seqx.Viol{Sig: "readpartitions-wrong", Msg: fmt.Sprintf("ReadPartitions %v returned a partition of topic %s", names, p.Topic)}
+						return
+					}
+				}
+			})
+			if br.Panic != "" {
+				return "panic", &seqx.Viol{Sig: "panic", Msg: br.Panic}
+			}
+			return fmt.Sprint(len(names)), v
+		})
+	}
 }
